@@ -408,11 +408,17 @@ def mon_c11(h):
 
 
 def later_reducer_event_after(h, red_event, inv_stop):
-    """the first reducer-context event after the producing action's reduce phase comes after
-    stop() was invoked (so the pool may already have been taken at spawn time)"""
+    """F4 class: stop() was invoked before the effect phase of the producing action was over, so
+    the pool may already have been taken when this effect was to be spawned. The effect phase is
+    over at the first reducer-context event that follows the action's reduce and before_effect
+    events (its before_dispatch hook, its notification, or the next action)."""
+    a = red_event["f"][1]
     for e in h.ev[red_event["i"] + 1:]:
-        if e["t"] == 100 and e["kind"] != "RED":
-            return e["i"] > inv_stop
+        if e["t"] != 100:
+            continue
+        if e["kind"] in ("RED", "ERR") or (e["kind"] == "BE" and e["f"][1] == a):
+            continue
+        return e["i"] > inv_stop
     return True
 
 
